@@ -57,6 +57,12 @@ def twin_eligible(spec):
         return False
     if spec["cfg"].get("auto_flag") and autos:
         return False
+    # TSLACK / EST rank by absolute times (time + sums of work amounts).  Under the decimal alphabet the same
+    # mathematical tie can round differently at different absolute times, so a shifted run may break a tie the
+    # other way: floating-point noise, not a property violation.  The twin is compared under exact (dyadic)
+    # arithmetic for these two rules, and for every alphabet under the seven time-independent rules.
+    if spec["cfg"].get("rule", 0) in (0, 1) and spec.get("profile", {}).get("alphabet") != "dyadic":
+        return False
     return True
 
 
